@@ -31,7 +31,16 @@ func ZZHarnessStorageLayer() {
 	}
 	var err error
 	if attestation {
-		err = st.SaveHighestAttestation(pk1, att(s1, t1))
+		if zzNondetBool("updateInPlace") {
+			// the slashing-protection library's own pattern: retrieve the record, raise it in place, save the same object
+			cur, _, _ := st.RetrieveHighestAttestation(pk1)
+			zzAssume(cur != nil && cur.Source != nil && cur.Target != nil)
+			cur.Source.Epoch, cur.Target.Epoch = phase0.Epoch(s1), phase0.Epoch(t1)
+			err = st.SaveHighestAttestation(pk1, cur)
+			zzReach("updated-in-place")
+		} else {
+			err = st.SaveHighestAttestation(pk1, att(s1, t1))
+		}
 	} else {
 		err = st.SaveHighestProposal(pk1, phase0.Slot(p1))
 	}
@@ -57,6 +66,15 @@ func ZZHarnessStorageLayer() {
 	} else {
 		zzAssert(uint64(gp) == p0, "a-failed-or-unrelated-write-leaves-the-proposal-record")
 	}
+	// restart: a fresh storage object over the same database reads the same records
+	st2 := NewSignerStorage(db, &zzBeacon{slot: 64}, zap.NewNop())
+	ra, rfa, rea := st2.RetrieveHighestAttestation(pk1)
+	rp, rfp, rep := st2.RetrieveHighestProposal(pk1)
+	zzAssert(rea == nil && rfa && ra != nil && ra.Source != nil && ra.Target != nil && rep == nil && rfp, "records-readable-after-restart")
+	if ra != nil && ra.Source != nil && ra.Target != nil && ga != nil && ga.Source != nil && ga.Target != nil {
+		zzAssert(ra.Source.Epoch == ga.Source.Epoch && ra.Target.Epoch == ga.Target.Epoch, "attestation-record-survives-a-restart-unchanged")
+	}
+	zzAssert(rp == gp, "proposal-record-survives-a-restart-unchanged")
 	// records are per key
 	_, f2, e2 := st.RetrieveHighestAttestation(pk2)
 	_, f3, e3 := st.RetrieveHighestProposal(pk2)
